@@ -152,7 +152,7 @@ func runCliCase(c *ctx, cc cliCase, limIdx int, st *partStats) {
 		go func() { cli.Close(); srv.Close(); close(done) }()
 		select {
 		case <-done:
-		case <-time.After(eventDeadline):
+		case <-time.After(curDeadline()):
 			c.capHit("cli rig: teardown of a case did not finish within 60 s (left behind)")
 		}
 	}()
@@ -164,7 +164,7 @@ func runCliCase(c *ctx, cc cliCase, limIdx int, st *partStats) {
 		pk = append(pk, &parser.Packet{Type: parser.PacketTypeMessage, Data: data})
 	}
 	cli.Send(pk...)
-	deadline := time.NewTimer(eventDeadline)
+	deadline := time.NewTimer(curDeadline())
 	defer deadline.Stop()
 	n := 0
 	var ci closeInfo
